@@ -272,7 +272,7 @@ fn check_loop(r: &Report, case: &loopdrv::LoopCase, index: u64) {
     use divan_verif_rt::log::Kind;
     use loopdrv::*;
     let out = run_case(case);
-    if out.panic.as_deref().map_or(false, |m| m.contains(divan_verif_rt::clock::HORIZON_PANIC)) {
+    if out.horizon {
         r.add(&r.excluded, 1);
         return;
     }
